@@ -262,6 +262,24 @@ CLAIMS = {
               "apply to every file, also to files covered by a directory rule (the conjunctive reading)."),
         technique="Lean 4 proof (case analysis + induction over the rule list, regex semantics as a parameter) + differential check",
         ref="DESIGN.md §3 C18"),
+    "C19": dict(
+        text=("Kernel-checked theorems about the walk scheme of the pattern linters (full traversal; a node's verdict is a function of its subtree), "
+              "for every tree, context, multiplicity and renaming: an embedded example keeps all its findings in order under any stack of enclosing "
+              "nodes and between any siblings (findings_survive_embedding), the file reports exactly the example's findings when the surroundings "
+              "are quiet, so an acceptable example stays unreported everywhere (findings_exact_in_quiet_context), k copies report k times "
+              "(copies_report_k_times), a name-blind verdict is invariant under renaming (renaming_invariant), and a walk that stops descending "
+              "loses nested examples (partial_walk_loses_nested_example). T1: the examples are extracted from docs/*-linter.md on every run, "
+              "with the configuration the text states. Tied to /repo by running every labelled example of the 'Violation Examples' sections "
+              "stand-alone (reported / not reported, documented rule ids) and, for the pattern linters, embedded in 10 Python / 4 TypeScript "
+              "contexts x multiplicity 1-3 x same or renamed identifiers x varied filler code; the embedded findings must be those the Lean "
+              "walk computes from the stand-alone ones (sub-list in loop contexts). Five genuine defects repaired, five recorded as known "
+              "findings (documentation / implementation mismatches of file-header, lazy-ignores, stringly-typed; cqs for TypeScript)."),
+        note=("which syntax nodes a documented example consists of, and each linter's verdict on it, come from the real run (stand-alone baseline), "
+              "not from the model; only blocks that the documentation itself labels inside its 'Violation Examples' section are used, so examples "
+              "elsewhere in the documents are not covered; stringly-typed, lazy-ignores and file-header examples are only checked stand-alone "
+              "(cross-file evidence and header position make embeddings change their meaning)."),
+        technique="Lean 4 proof (structural recursion over mutually inductive trees and contexts) + documentation-driven differential check",
+        ref="DESIGN.md §3 C19"),
     "C20": dict(
         text=("Kernel-checked theorems about (I) the init-config merge at text level, for every existing text, template and YAML parser (the "
               "parser is a parameter): a written result parses and keeps every pre-existing top-level setting (written_keeps_settings), the old "
